@@ -827,10 +827,38 @@ fn r12_pass(mut text: String, is_method: bool, cnt: &mut Counters) -> Result<Str
 //      rewritten form (E0507, cannot move out of a reference), so the generated file cannot compile in that case
 //      (exit 2, never a verdict). The one user, Lexer::lex_macro_var_expr (U06), has T = u8 (`Vec<u8>::first()`,
 //      `Vec<u8>::retain`). Only `&ident` without `mut`, `ref` or sub-pattern is handled; counted per occurrence.
+//        if-let              `if let P[&S { f: x, .. }] = E { B }`  ==  `if let P[s__rN] = E { let S { f: x, .. } = *s__rN; B }`
+//      for a struct pattern `S { .. }` whose fields only bind plain identifiers (so it is irrefutable and matching
+//      `&S { .. }` against a `&S` cannot fail): the bindings are copies of the referent's fields in both forms. Were `S`
+//      an enum variant (refutable) or a bound field not Copy, rustc rejects the rewritten `let` (E0005 / E0507): exit 2,
+//      never a verdict. User: Lexer::maybe_emit_empty_macro_string_in_eval (U19), `Option<&TokenInfo>`.
 // ------------------------------------------------------------------------------------------
-struct R14Find {
+struct R14Find<'t> {
     found: Option<Vec<Edit>>,
     hits: usize,
+    text: &'t str,
+}
+/// `&S { f: x, g, .. }` (no `mut`, every field pattern a plain identifier binding)
+fn ref_struct_pats(p: &syn::Pat, out: &mut Vec<(Range<usize>, Range<usize>)>) {
+    struct V<'o>(&'o mut Vec<(Range<usize>, Range<usize>)>);
+    impl<'ast, 'o> Visit<'ast> for V<'o> {
+        fn visit_pat_reference(&mut self, r: &'ast syn::PatReference) {
+            if r.mutability.is_none() {
+                if let syn::Pat::Struct(ps) = &*r.pat {
+                    let plain = ps.qself.is_none() && ps.fields.iter().all(|f| match &*f.pat {
+                        syn::Pat::Ident(pi) => pi.by_ref.is_none() && pi.mutability.is_none() && pi.subpat.is_none(),
+                        _ => false,
+                    });
+                    if plain {
+                        self.0.push((br(r), br(ps)));
+                        return;
+                    }
+                }
+            }
+            visit::visit_pat_reference(self, r);
+        }
+    }
+    V(out).visit_pat(p);
 }
 fn ref_ident_pats(p: &syn::Pat, out: &mut Vec<(Range<usize>, String)>) {
     struct V<'o>(&'o mut Vec<(Range<usize>, String)>);
@@ -849,7 +877,7 @@ fn ref_ident_pats(p: &syn::Pat, out: &mut Vec<(Range<usize>, String)>) {
     }
     V(out).visit_pat(p);
 }
-impl<'ast> Visit<'ast> for R14Find {
+impl<'ast, 't> Visit<'ast> for R14Find<'t> {
     fn visit_expr_closure(&mut self, c: &'ast syn::ExprClosure) {
         visit::visit_expr_closure(self, c);
         if self.found.is_some() {
@@ -882,6 +910,29 @@ impl<'ast> Visit<'ast> for R14Find {
         self.hits = hits.len();
         self.found = Some(edits);
     }
+    fn visit_expr_if(&mut self, i: &'ast syn::ExprIf) {
+        visit::visit_expr_if(self, i);
+        if self.found.is_some() {
+            return;
+        }
+        let Expr::Let(el) = &*i.cond else { return };
+        let mut hits = vec![];
+        ref_struct_pats(&el.pat, &mut hits);
+        if hits.is_empty() {
+            return;
+        }
+        let mut edits = vec![];
+        let mut lets = String::new();
+        for (n, (whole, inner)) in hits.iter().enumerate() {
+            let id = format!("s__r{n}");
+            edits.push(Edit { start: whole.start, end: whole.end, rep: id.clone() });
+            let _ = write!(lets, " let {} = *{id};", &self.text[inner.clone()]);
+        }
+        let open = br(&i.then_branch).start;
+        edits.push(Edit { start: open + 1, end: open + 1, rep: lets });
+        self.hits = hits.len();
+        self.found = Some(edits);
+    }
     fn visit_local(&mut self, l: &'ast syn::Local) {
         visit::visit_local(self, l);
         if self.found.is_some() {
@@ -910,7 +961,7 @@ fn r14_pass(mut text: String, is_method: bool, cnt: &mut Counters) -> Result<Str
         let edits;
         let hits;
         {
-            let mut f = R14Find { found: None, hits: 0 };
+            let mut f = R14Find { found: None, hits: 0, text: &text };
             if is_method {
                 let ast: syn::ImplItemFn = syn::parse_str(&text).map_err(|e| format!("reparse (R14): {e}"))?;
                 f.visit_impl_item_fn(&ast);
